@@ -341,7 +341,7 @@ def parse_branch(ctx):
     return _emit(d)
 
 
-@rule("SEQ-OPTIMIZE-ARMS", ["C20", "C08"], floor=3)
+@rule("SEQ-OPTIMIZE-ARMS", ["C20", "C08", "C05", "C01"], floor=3)
 def seq_optimize_arms(ctx):
     """Sequence::optimize: an empty sequence is Nothing, a one-element sequence is that element, a longer one is
     rebuilt from the per-element closure in the same order."""
@@ -364,7 +364,11 @@ def seq_optimize_arms(ctx):
         elif v == "1":
             _rec(d, "single", r == "Option::unwrap(<IntoIter<T, A> as Iterator>::next(a1.operations))", "a one-element sequence must optimise to its element; found %s" % r[:80], loc)
         else:
-            good = r.startswith("op(Sequence::Sequence{operations: Iterator::collect(Iterator::map(Iterator::enumerate(Iterator::cloned(a1.operations))") or ("Iterator::map(Iterator::enumerate(" in r and "a1.operations" in r and "rev" not in r)
+            # every operation is carried over, in order: nothing between the walk over a1.operations and the collected
+            # vector drops, adds or reorders elements (a sequence that lost elements can end up empty, and
+            # SequenceIterator::new takes its first element without asking)
+            lossy = re.search(r"Iterator::(filter|filter_map|flat_map|flatten|skip|skip_while|take|take_while|step_by|chain|rev|dedup\w*|scan)\(", r)
+            good = (r.startswith("op(Sequence::Sequence{operations: Iterator::collect(Iterator::map(Iterator::enumerate(Iterator::cloned(a1.operations))") or ("Iterator::map(Iterator::enumerate(" in r and "a1.operations" in r)) and not lossy
             if not good and p.end.startswith("loop"):
                 # the loop form: every turn of a forward walk over a1.operations appends exactly one operation
                 calls = [(e[1].split("::")[-1], [_sh(strip_ver(render(x))) for x in e[2]]) for e in p.effects if e[0] == "call"]
